@@ -85,6 +85,7 @@ struct Sim {
 	uint64_t rand_draws = 0, srand_calls = 0;
 	// allocator
 	int realloc_mode = 0;     // 0 = libc decides, 1 = always move, 2 = (libc) in place when possible
+	int64_t open_read_streams = 0;   // simulated files opened for reading and not closed yet
 	uint64_t garbage_fills = 0;
 	int malloc_fill = 0;      // 1 = every block the library obtains from malloc (and every tail a realloc adds) is filled with garbage that depends on how many
 	                          //     allocations the process has made so far: what real allocators do when they hand a freed chunk out again.  Output that depends on
